@@ -55,7 +55,8 @@ struct thr {
 	int frozen_was;
 	unsigned long yields;
 	unsigned long op_stores; int sb_cp_pending, demote_at_next;
-	int stack_shared;	/* another thread has accessed an object on this thread's stack (e.g. a urcu_wait node) */
+	int stack_shared;
+	int exiting; unsigned long exit_base;	/* the start routine has returned; lsteps at that moment */	/* another thread has accessed an object on this thread's stack (e.g. a urcu_wait node) */
 	unsigned long run_since_switch;	/* scheduling points taken since this thread last yielded, blocked or was preempted */
 	unsigned long empt[256]; int nempt;	/* steps at which this thread's store buffer became empty */
 };
@@ -87,7 +88,7 @@ static struct { int tid; unsigned long j; int len; } delays[MAXLIST]; static int
 /* delay2: the k-th bufferable store a thread executes during program operation `op` is held for `len` of its scheduling points; with cp set the
  * thread is preempted right after its next atomic load while that store is still buffered - the store-buffer litmus window (store; load; others run) */
 static struct { int tid, op; unsigned long k; int len, cp; } delays2[MAXLIST]; static int ndelay2;
-static struct { int tid; unsigned long k; } sigs[MAXLIST]; static int nsig;
+static struct { int tid; unsigned long k; int at_exit; } sigs[MAXLIST]; static int nsig;
 static struct { char kind[24]; long k; } faults[MAXLIST]; static int nfault;
 static uint64_t rw_rng; static int rw_permille;
 static uint64_t rd_rng; static int rd_pct, rd_maxlen = 40;
@@ -501,7 +502,8 @@ static void sig_tramp(int signo)
 static void raise_signals(struct thr *me)
 {
 	for (int i = 0; i < nsig; i++)
-		if (tmatch(me, sigs[i].tid) && sigs[i].k == me->lsteps && me->cur_op >= 0) {	/* only while the thread runs its program, not during thread start/exit */
+		/* while the thread runs its program; with `sigx` lines also `k` scheduling points into its exit path (thread-specific-data destructors) */
+		if (tmatch(me, sigs[i].tid) && ((sigs[i].k == me->lsteps && me->cur_op >= 0 && !sigs[i].at_exit) || (sigs[i].at_exit && me->exiting && sigs[i].k == me->lsteps - me->exit_base))) {
 			in_rt = 1; sb_drain(me); in_rt = 0;	/* interrupt delivery is serialising */
 			pthread_kill(pthread_self(), SIGUSR1);
 		}
@@ -850,6 +852,7 @@ static void *tramp(void *p)
 	fwait(&me->baton);
 	me->ret = me->fn(me->arg);
 	in_rt = 1;
+	me->exiting = 1; me->exit_base = me->lsteps;
 	pthread_setspecific(ds_key, me);	/* finish from the last TSD destructor round (urcu-bp exit notifier runs under the baton) */
 	in_rt = 0;
 	return me->ret;
@@ -969,6 +972,7 @@ static void parse_case(char *text)
 		else if (!strcmp(w, "cp")) { if (ncp < MAXLIST && sscanf(rest, "%d %d %lu", &cps[ncp].tid, &cps[ncp].op, &cps[ncp].k) == 3) ncp++; }
 		else if (!strcmp(w, "delay")) { if (ndelay < MAXLIST && sscanf(rest, "%d %lu %d", &delays[ndelay].tid, &delays[ndelay].j, &delays[ndelay].len) == 3) ndelay++; }
 		else if (!strcmp(w, "delay2")) { if (ndelay2 < MAXLIST && sscanf(rest, "%d %d %lu %d %d", &delays2[ndelay2].tid, &delays2[ndelay2].op, &delays2[ndelay2].k, &delays2[ndelay2].len, &delays2[ndelay2].cp) == 5) ndelay2++; }
+		else if (!strcmp(w, "sigx")) { if (nsig < MAXLIST && sscanf(rest, "%d %lu", &sigs[nsig].tid, &sigs[nsig].k) == 2) { sigs[nsig].at_exit = 1; nsig++; } }
 		else if (!strcmp(w, "sig")) { if (nsig < MAXLIST && sscanf(rest, "%d %lu", &sigs[nsig].tid, &sigs[nsig].k) == 2) nsig++; }
 		else if (!strcmp(w, "fault")) { if (nfault < MAXLIST && sscanf(rest, "%23s %ld", faults[nfault].kind, &faults[nfault].k) == 2) nfault++; }
 		else if (!strcmp(w, "rw")) { unsigned long s; if (sscanf(rest, "%lu %d", &s, &rw_permille) == 2) rw_rng = s * 0x9E3779B97F4A7C15ull + 0x1234567ull; }
